@@ -15,8 +15,8 @@ MAX_REPORT = 3
 RULE = ("scenario = cache_dir type (rock with 4 KB / 32 KB slots, ufs, aufs) x a workload of stores, same-URL overwrites (same and "
         "different sizes), purges and evictions x a crash point: the LD_PRELOAD injector SIGKILLs the whole squid process group when "
         "the N-th change of a cache_dir file (write/pwrite/unlink/rename/truncate, counted across squid, its I/O threads and unlinkd) "
-        "is about to happen, optionally after writing only the first b bytes of that write; quick: every 4th event of every workload "
-        "+ torn variants, thorough: every event + several torn lengths; some scenarios crash a second time (during the index rebuild "
+        "is about to happen, optionally after writing only the first b bytes of that write; quick: every 5th event of two workloads per store type "
+        "+ torn variants, thorough: every event of five workloads per store type (aufs: every 2nd) + torn lengths; some scenarios crash a second time (during the index rebuild "
         "or later) or crash during a clean shutdown; then a start without fault injection, an only-if-cached probe of every URL, two "
         "more stores, and the probes again; non-trivial = the crash point was reached (squid died by the injector) after at least one "
         "completed store; distinct = distinct scenario lines")
@@ -53,10 +53,39 @@ MANIFEST = {
 STATE = {}
 
 
+class Wrapper:
+    """the harness + one batched run of the model driver over everything compare() is going to ask"""
+
+    def __init__(self, h):
+        self.h = h
+
+    @property
+    def crashes(self):
+        return self.h.crashes
+
+    def run(self, lines):
+        outs = self.h.run(lines)
+        want = []
+        for l, o in zip(lines, outs):
+            try:
+                want += driver_lines(l, o)
+            except Exception:
+                pass
+        if want:
+            try:
+                drive(sorted(set(want)))
+            except Exception:
+                pass
+        return outs
+
+    def close(self):
+        self.h.close()
+
+
 def build(stage):
     h = H.Harness(stage)
     STATE["harness"] = h
-    return h
+    return Wrapper(h)
 
 
 # ------------------------------------------------------------------------------------------------ observation parsing
@@ -151,7 +180,7 @@ def classify(l, impl, why):
     m = re.search(r"!pieces\(([^)]*)\)", why)
     if not sc["store"].startswith("rock") or not m or "hit differs" not in why:
         return None
-    pieces = m.group(1).split("+")
+    pieces = [re.sub(r"~\d+$", "", x) for x in m.group(1).split("+")]
     torn = any(c[0] == "n" and c[2] > 0 for _, c in sc["phases"])
     if "x" in pieces:
         # bytes that are no piece of any response: only a torn write explains them
@@ -166,9 +195,18 @@ def classify(l, impl, why):
 # ------------------------------------------------------------------------------------------------ model tie
 
 _driver = [None]
+CACHE = {}
 
 
 def drive(lines):
+    miss = [x for x in lines if x not in CACHE]
+    if miss:
+        for x, y in zip(miss, drive_raw(miss)):
+            CACHE[x] = y
+    return [CACHE[x] for x in lines]
+
+
+def drive_raw(lines):
     if _driver[0] is None:
         dev = os.environ.get("VERIF_DEV_DRIVER_C16")
         _driver[0] = dev.split(" ") if dev else [leanp.driver_path(MODEL)]
@@ -213,7 +251,12 @@ def same_lookup(real, pred, name, vers, cal, slot_size):
         return tags == ["%sv%dp%d" % (name, v, j) for j in range(npieces(cal, slot_size, n))]
     m = re.search(r"!pieces\(([^)]*)\)", real)
     if m:
-        return tags == m.group(1).split("+")
+        got = m.group(1).split("+")
+        if got and "~" in got[-1]:
+            # the reply header promised fewer bytes than the chain holds: the response ends inside a piece
+            got[-1] = got[-1].split("~")[0]
+            return tags[:len(got)] == got
+        return tags == got
     return False
 
 
@@ -242,16 +285,61 @@ def strip_versions(trace_phase):
     return out
 
 
+def rockimg_line(sc, o):
+    img = o["img"][-1] if o["img"] and o["img"][-1].startswith("rock:") else None
+    f = o["final"]
+    if img and f["start"] == "ok" and f["first"]:
+        _, ss, ns, cells = img.split(":", 3)
+        return "rockimg %s %s %s %s" % (ss, ns, cells, rock_queries(sc["nkeys"]))
+    return None
+
+
+def scenario_line(l, o):
+    toks = l.split(" ")
+    return " ".join([toks[0], "%d.%d" % o["cal"]] + toks[2:])
+
+
+def ufs_lines(sc, o):
+    f = o["final"]
+    img = o["img"][-1] if o["img"] and o["img"][-1].startswith("ufs:") else None
+    lines = []
+    if img and f["start"] == "ok" and f["first"]:
+        _, logs, files = img.split(":", 2)
+        # the log the next start reads is swap.state (a leftover swap.state.new is truncated)
+        recs = "-"
+        for part in logs.split("/"):
+            if part.startswith("swap.state="):
+                recs = re.sub(r"~\d+$", "", part.split("=", 1)[1])
+        recs = "+".join(x for x in recs.split("+") if not x.startswith("3,")) or "-"
+        lines.append("ufsimg %s %s %s" % (recs, files, ",".join("k%d" % k for k in range(sc["nkeys"]))))
+    tr = dict((int(x.split(":", 1)[0]), x.split(":", 1)[1]) for x in o["trace"].split("|") if ":" in x)
+    evs = ufs_trace_events(tr.get(0, "-"))
+    if evs is None:
+        return None
+    lines.append("ufstrace %s" % (";".join(evs) or "-"))
+    return lines
+
+
+def driver_lines(l, impl):
+    sc = H.parse_line(l)
+    o = split_obs(impl or "")
+    if sc is None or o is None or o["final"] is None:
+        return []
+    if sc["store"].startswith("rock"):
+        x = rockimg_line(sc, o)
+        return ([x] if x else []) + [scenario_line(l, o)]
+    return ufs_lines(sc, o) or []
+
+
 def compare_rock(sc, o, l):
     cal = o["cal"]
     slot_size = int(sc["store"][4:])
     vers = versions(sc)
     f = o["final"]
     # (b) the rebuild models on the image read from the real db file after the last phase
-    img = o["img"][-1] if o["img"] and o["img"][-1].startswith("rock:") else None
-    if img and f["start"] == "ok" and f["first"]:
-        _, ss, ns, cells = img.split(":", 3)
-        out = drive(["rockimg %s %s %s %s" % (ss, ns, cells, rock_queries(sc["nkeys"]))])[0]
+    il = rockimg_line(sc, o)
+    if il:
+        out = drive([il])[0]
         if not out.startswith("rebuild=ok"):
             return False
         res = dict(x.split("=", 1) for x in out.split(" ")[1:])
@@ -267,8 +355,7 @@ def compare_rock(sc, o, l):
             return True          # a write torn inside the swap metadata: what the parser makes of the mix is not predicted
         if any(op[0] == "C" for op in ops):
             return True
-    toks = l.split(" ")
-    pred = drive([" ".join([toks[0], "%d.%d" % cal] + toks[2:])])[0]
+    pred = drive([scenario_line(l, o)])[0]
     pp = pred.split(" | ")
     real_tr = dict((int(x.split(":", 1)[0]), x.split(":", 1)[1]) for x in o["trace"].split("|") if ":" in x)
     for i, ph in enumerate(o["phases"]):
@@ -326,6 +413,10 @@ def ufs_trace_events(trace_phase):
         if f[0] not in ("W", "P", "U", "T", "K", "R", "F"):
             return None
         path = f[1]
+        if path == "swap.state.clean":
+            break            # a clean shutdown rewrites the log from the index: beyond the run-time protocol
+        if path.startswith("swap.state") and path != "swap.state":
+            continue         # the temporary log of the rebuild
         if path.startswith("swap.state"):
             if f[0] == "W" and len(f) >= 4:
                 for rec in f[3].split("+"):
@@ -393,22 +484,9 @@ def ufs_trace_events(trace_phase):
 
 def compare_ufs(sc, o, l):
     f = o["final"]
-    img = o["img"][-1] if o["img"] and o["img"][-1].startswith("ufs:") else None
-    lines = []
-    if img and f["start"] == "ok" and f["first"]:
-        _, logs, files = img.split(":", 2)
-        # the log the next start reads is swap.state (a leftover swap.state.new is truncated)
-        recs = "-"
-        for part in logs.split("/"):
-            if part.startswith("swap.state="):
-                recs = re.sub(r"~\d+$", "", part.split("=", 1)[1])
-        recs = "+".join(x for x in recs.split("+") if not x.startswith("3,")) or "-"
-        lines.append("ufsimg %s %s %s" % (recs, files, ",".join("k%d" % k for k in range(sc["nkeys"]))))
-    tr = dict((int(x.split(":", 1)[0]), x.split(":", 1)[1]) for x in o["trace"].split("|") if ":" in x)
-    evs = ufs_trace_events(tr.get(0, "-")) if sc["store"] in ("ufs", "aufs") else None
-    if evs is None:
+    lines = ufs_lines(sc, o)
+    if lines is None:
         return False
-    lines.append("ufstrace %s" % (";".join(evs) or "-"))
     outs = drive(lines)
     if outs[-1] != "wf":
         return False
@@ -495,39 +573,41 @@ def random_workload(rng, nk):
 
 def cases(rng, tier):
     thorough = tier == "thorough"
-    stores = STORES_QUICK + (["rock32768"] if thorough else [])
-    plans = []      # (store, nkeys, ops)
-    for st in stores:
-        for nk, ops in WORKLOADS:
-            plans.append((st, nk, ops))
-        for i in range(3 if thorough else 1):
-            nk = rng.range(1, 3)
-            plans.append((st, nk, random_workload(rng, nk)))
-    plans.append(("rock32768", EVICTION[0], EVICTION[1]))
+    plans = []      # (store, nkeys, ops, step between crash points, torn variants per crash point as (num, den))
     if thorough:
-        plans.append(("ufs", EVICTION[0], EVICTION[1]))
-        plans.append(("aufs", EVICTION[0], EVICTION[1]))
-    disc = ["%s auto %d %s@e" % p for p in plans]
+        for st, step, torn in (("rock4096", 1, (2, 1)), ("rock32768", 1, (2, 1)), ("ufs", 1, (1, 2)), ("aufs", 2, (1, 1))):
+            for nk, ops in WORKLOADS:
+                plans.append((st, nk, ops, step, torn))
+            nk = rng.range(1, 3)
+            plans.append((st, nk, random_workload(rng, nk), step, torn))
+        plans.append(("rock32768", EVICTION[0], EVICTION[1], 2, (1, 2)))
+        plans.append(("ufs", EVICTION[0], EVICTION[1], 8, (1, 4)))
+    else:
+        # quick: every 5th event (the offset moves with the seed) of one fixed and one random workload per store type
+        for st in STORES_QUICK:
+            nk, ops = WORKLOADS[rng.below(len(WORKLOADS))] if st != "rock4096" else WORKLOADS[0]
+            plans.append((st, nk, ops, 5, (1, 2)))
+            nk = rng.range(1, 2)
+            plans.append((st, nk, random_workload(rng, nk), 5, (1, 2)))
+        plans.append(("rock32768", EVICTION[0], EVICTION[1], 12, (0, 1)))
+    disc = ["%s auto %d %s@e" % p[:3] for p in plans]
     counts = event_counts(disc)
     # the runs without a crash point are cases too (SIGKILL of an idle squid)
     for d in disc:
         yield d
-    step = 1 if thorough else 4
-    for (st, nk, ops), total in zip(plans, counts):
+    for (st, nk, ops, step, torn), total in zip(plans, counts):
         if total <= 0:
             continue
-        big = "190000" in ops
-        pts = list(range(1, total + 1, step if not big else max(step, total // (40 if thorough else 6))))
-        if not thorough:
-            # always include the write after each store's first one: offset by the seed so that seeds cover different residues
-            off = rng.below(step)
-            pts = sorted(set(min(total, p + off) for p in pts))
+        off = rng.below(step)
+        pts = [n for n in range(1, total + 1) if (n - 1) % step == off]
         for n in pts:
             yield "%s auto %d %s@%d" % (st, nk, ops, n)
-            ntorn = (3 if thorough else (1 if rng.chance(1, 2) else 0))
-            for _ in range(ntorn):
+            k = torn[0] // torn[1] + (1 if rng.chance(torn[0] % torn[1], torn[1]) else 0)
+            for _ in range(k):
                 yield "%s auto %d %s@%dt%d" % (st, nk, ops, n, rng.choice(TORN))
         # second crashes: during the rebuild that follows the first one, during later stores, during a clean shutdown
+        if "190000" in ops or (not thorough and not rng.chance(1, 2)):
+            continue
         for _ in range(4 if thorough else 1):
             n1 = rng.range(1, total)
             kind = rng.below(4)
